@@ -3,7 +3,7 @@
    model (coq/c07/C07Model.v); E and D are arbitrary functions from key and block to block. *)
 From V.lib Require Import Base.
 From V.c07 Require Import C07Model.
-From V.c06 Require Import C06Model C06StructProofs C06CencProofs C06CbcsProofs C06SampleProofs.
+From V.c06 Require Import C06Model C06InitModel C06StructProofs C06CencProofs C06CbcsProofs C06SampleProofs C06InitProofs.
 
 (* cenc: crypting twice with the same key, IV and sub-sample map restores the sample — for EVERY block function
    E, every map (empty = whole sample, partial last block, clear runs > 65535, even overlapping or wrapping
@@ -90,6 +90,18 @@ Theorem C06_decrypt_preserves_offsets : forall f g,
 Proof. exact decrypt_struct_general. Qed.
 Print Assumptions C06_decrypt_preserves_offsets.
 
+(* init segment: DecryptInit (InitProtect init) = init for every single-track init whose sample entry has no sinf
+   of its own and whose moov has no pssh: the sample entry type is restored from frma (avc1/avc3/hvc1/hev1, any
+   audio type), the sinf and the added pssh boxes are gone, every other child of the sample entry and of moov
+   is kept in place, and the decrypt side receives the scheme and the tenc that InitProtect returned *)
+Theorem C06_init_roundtrip : forall m iv sch kid psshs ps_ok m' t,
+  init_protect m iv sch kid psshs ps_ok = Ok (m', t) ->
+  no_pssh m = true ->
+  (forall se, traks_of m = [[se]] -> no_sinf (se_children se) = true) ->
+  decrypt_init m' = Ok (m, [Some (sch, Some t)]).
+Proof. exact init_roundtrip. Qed.
+Print Assumptions C06_init_roundtrip.
+
 (* ---------------------------------------------------------------- examples *)
 (* the defect of the pinned tree (fixed by the `fix:` commit): traf{tfhd, tfxd-uuid} lost its uuid box and no
    byte was counted *)
@@ -123,3 +135,23 @@ Proof.
   rewrite H1. unfold ex_E. rewrite xorl_involutive by (rewrite Hf, Hp; reflexivity).
   rewrite firstn_app, Hb, Nat.sub_diag, firstn_all2 by lia. cbn. apply app_nil_r.
 Qed.
+
+(* an init satisfying the hypotheses of C06_init_roundtrip, and why the sinf guard is there: an entry that
+   already owns a sinf loses that one (RemoveEncryption removes the FIRST sinf child) *)
+Example ex_init :
+  let m := [MVOther 1; MVTrak [mkSE SVisual cc_avc1 [SEOther 2; SEOther 3]]; MVOther 4] in
+  no_pssh m = true /\
+  match init_protect m (repeat 7 8) cc_cbcs 1 [1000] true with
+  | Ok (m', t) => decrypt_init m' = Ok (m, [Some (cc_cbcs, Some t)]) /\ t_constiv t = repeat 7 8 ++ repeat 0 8
+  | _ => False
+  end.
+Proof. vm_compute. repeat split; reflexivity. Qed.
+
+Example ex_init_own_sinf :
+  let own := SESinf (mkSinf 1 (Some cc_cenc) None) in
+  let m := [MVTrak [mkSE SAudio 77 [own; SEOther 2]]] in
+  match init_protect m (repeat 7 16) cc_cenc 1 [] true with
+  | Ok (m', t) => exists s, decrypt_init m' = Ok ([MVTrak [mkSE SAudio 77 [SEOther 2; SESinf s]]], [Some (cc_cenc, Some t)])
+  | _ => False
+  end.
+Proof. vm_compute. eexists. reflexivity. Qed.
